@@ -18,6 +18,9 @@ open PatchModel PatchModel.Inert
     headerStep { par := ⟨⟨[], false, false⟩, 1⟩, patch := {}, thisLooks := .normal } (str "> foo") 0
       = .ok (st', false)  with st'.patch.format = .normal           (inertLine (str "> foo") = true)
 
+  (Unchanged by the reordering of `headerStep` — the "first body line" test for the unified format now comes before the
+  keyword tests, which matters only for lines that are NOT inert (`--- x`, `+++ y`); the `#guard`s below evaluate as before.)
+
   Minimal repair: the hypothesis `st.thisLooks = .unknown` (true at the start of a scan, after every header keyword
   line and after every inert line).  `Inert.headerStep_inert` has the weaker `thisLooks ∉ {unified, normal}`.
 
